@@ -15,6 +15,7 @@ import json
 import random
 
 from .. import common as C
+from .. import forms as FM
 from .. import gen_graph as G
 from ..enc_expr import enc_var, dec_var, to_str_tree
 from ..oracles import ctf_sets as S
@@ -36,6 +37,7 @@ RULE = ("structured families first: (1) chains of length 3-4 with every set of s
         "Intervention objects, value marks).  A case is non-trivial when the graph has >=3 nodes and a directed edge and the "
         "argument mentions at least one subscript (for component cases: at least two input sets).")
 ASSUMPTIONS = [
+    "argument FORMS (harness/forms.py; chosen deterministically per case, stored in the case, tagged form_*): parameters typed set[Variable] / set[frozenset[Variable]] / set[tuple[..]] (event of is_counterfactual_factor_form, get_counterfactual_factors(_retaining_variable_values); conditioned_variables, root_variables, ancestral_sets, input_sets) as set / frozenset / list / tuple / dict keys; events (Event = list[tuple[Variable, Intervention]]) as list or tuple; minimize_counterfactual, get_ancestors_of_counterfactual and the two merge passes positional or by keyword (every other entry point is keyword-only); the graph through every public constructor of NxMixedGraph. ONE-SHOT iterables are outside the declared types (set / list) and are NOT passed: measured on the unchanged tree, a generator makes the set-typed entry points iterate an exhausted iterator (3 546 of 45 513 quick cases differ) and an event given as a generator is consumed by the first pass of simplify / minimize_event -- documented by the type hints, not counted as a defect. The models take lists; independence of the form is a runtime clause decided by correspondence + oracle",
     "OPEN simplify_prob / simplify_none_zero (all events): FALSE for the code on events with a self-intervened variable Y_y (open findings simplify-reflexive:prob/none: y0 and the pinned test test_simplify_y read Y_y as the variable Y, the paper's Algorithm 1 and y0's ID* remove the tautology Y_y = y); proved as simplify_prob_partial / simplify_none_zero_partial for every event without a self-intervened variable whose values are values of the variable they are bound to, all compatible functional SCMs, all distinct readings of the value symbols",
     "simplify_prob_y0reading / simplify_none_zero_y0reading: for ALL events (self-intervened variables included; one subscript per name, values name their variable) SIMPLIFY is exactly right RELATIVE TO y0's reading y0Read of Spec/CtfSem.lean ('Y_{..y..} = y' is the event 'Y = y', 'Y_{..y..} = y'' is impossible); this does not close the finding - the reading itself contradicts the paper - it shows the reading is the whole deviation; the harness' finding key uses the same rewrite (_explained_by_reflexive_rewrite)",
     "OPEN factorisation_den (the factorised sum-product equals P(query), ALL queries): FALSE for the code on three syntactic classes of queries (open findings factorisation-value:multi-world / literal-bound / outcome-parent-value). PROVED as factorisation_den_partial for every query OUTSIDE the three classes (decidable predicates multiWorld / literalBound / outcomeParentValue of Model/CtfFactor.lean, cross-checked against the Python key functions on every run by the op factorize_classes) that is readable (no self-intervened variable, one value per subscript name), every compatible functional SCM whose pmfs sum to one and whose mechanisms take values below card, every reading of the value symbols; the counterfactual split lemma (independent noise blocks), marginalisation and composition are mechanised, not assumed",
@@ -381,7 +383,43 @@ def _rand_sets(rng, g, nodes, malformed=False, disjoint=False):
     return sets
 
 
+POSITIONAL_OK = ("minimize", "ancestors", "merge_common", "merge_bidirected")   # every other entry point is keyword-only
+SET_OPS = ("components_from_sets", "ancestral_components", "is_factor_form", "factors", "factors_values",
+           "cond_in_ancestral_set", "ancestral_set_after", "merge_common", "merge_bidirected")
+EVENT_OPS = ("minimize_event", "simplify", "convert", "factorize", "simplify_factorize", "sem_values")
+SET_FORMS = FM.REITERABLE + ("set",)             # parameters typed set[...]: see ASSUMPTIONS for the forms left out
+EVENT_FORMS = ("list", "list", "tuple")          # Event = list[tuple[Variable, Intervention]]
+
+
+def _slots(case):
+    op = case["op"]
+    if op == "factorize_classes":
+        return {}
+    sl = {"ctor": FM.CTORS}
+    if op in POSITIONAL_OK:
+        sl["call"] = ("positional", "keyword")
+    if op in SET_OPS:
+        sl["set"] = SET_FORMS
+    if op in EVENT_OPS:
+        sl["event"] = EVENT_FORMS
+    return sl
+
+
+def _forms(case):
+    fm = FM.forms_of(case, _slots(case))
+    import os
+    for k in ("set", "event", "ctor"):          # probe hook (tools only): force one form for a whole run
+        v = os.environ.get("VERIF_C19_FORCE_" + k.upper())
+        if v and k in fm:
+            fm[k] = v
+    return fm
+
+
 def cases(rng: random.Random, tier: str):
+    return [FM.assign(c, _slots(c)) for c in _cases(rng, tier)]
+
+
+def _cases(rng: random.Random, tier: str):
     out = load_corpus()
     quick = tier != "thorough"
     n_set = 22000 if quick else 120000     # set-valued / structural streams (random)
@@ -533,13 +571,23 @@ def _call(case):
     from y0.dsl import CounterfactualVariable, Intervention, Variable
 
     op = case["op"]
-    graph = G.to_nx_mixed(case["g"])
+    fm = _forms(case)
+    ctor = fm.get("ctor", "from_edges")
+    try:
+        graph = FM.build_graph(case["g"], ctor, seed=case.get("seed", 0))
+    except Exception as e:  # noqa: BLE001
+        return ["err"], "ConstructorFault", f"constructor {ctor} raised {type(e).__name__}: {str(e)[:100]}"
+    wf = FM.constructor_fault(case["g"], graph, ctor)
+    if wf:
+        return ["err"], "ConstructorFault", wf
     before = (set(graph.directed.nodes()), set(graph.directed.edges()), set(graph.undirected.edges()))
-    wf = None
+    kwcall = fm.get("call") == "keyword"
+    mkset = lambda xs: FM.container(list(xs), fm.get("set", "set"))            # noqa: E731
+    mkevent = lambda e: FM.container(_dec_event(e), fm.get("event", "list"))    # noqa: E731
     try:
         if op == "minimize":
             v = dec_var(case["v"])
-            r = au.minimize_counterfactual(v, graph)
+            r = au.minimize_counterfactual(variable=v, graph=graph) if kwcall else au.minimize_counterfactual(v, graph)
             if isinstance(r, CounterfactualVariable):
                 if not r.interventions or not all(isinstance(i, Intervention) for i in r.interventions):
                     wf = "minimize_counterfactual returned a CounterfactualVariable without (proper) interventions"
@@ -547,60 +595,62 @@ def _call(case):
                 wf = f"minimize_counterfactual returned a {type(r).__name__}"
             out = ["ok", _enc_var(r)]
         elif op == "minimize_event":
-            out = ["ok", _bag(_enc_event(api.minimize_event(event=_dec_event(case["e"]), graph=graph)))]
+            out = ["ok", _bag(_enc_event(api.minimize_event(event=mkevent(case["e"]), graph=graph)))]
         elif op == "simplify":
-            r = api.simplify(event=_dec_event(case["e"]), graph=graph)
+            r = api.simplify(event=mkevent(case["e"]), graph=graph)
             out = ["ok", "none"] if r is None else ["ok", ["some", C.as_set(_enc_event(r))]]
             if r is not None and len({v for v, _ in r}) != len(r):
                 wf = "simplify returned an event with a repeated variable"
         elif op == "ancestors":
-            r = au.get_ancestors_of_counterfactual(dec_var(case["v"]), graph)
+            r = au.get_ancestors_of_counterfactual(event=dec_var(case["v"]), graph=graph) if kwcall else \
+                au.get_ancestors_of_counterfactual(dec_var(case["v"]), graph)
             out = ["ok", C.as_set([_enc_var(v) for v in r])]
         elif op == "components_from_sets":
-            sets = {frozenset(dec_var(v) for v in s) for s in case["sets"]}
+            sets = mkset({frozenset(dec_var(v) for v in s) for s in case["sets"]})
             r = au._compute_ancestral_components_from_ancestral_sets(ancestral_sets=sets, graph=graph)
             out = ["ok", C.as_set([C.as_set([_enc_var(v) for v in s]) for s in r])]
         elif op == "ancestral_components":
-            r = au.get_ancestral_components(conditioned_variables={dec_var(v) for v in case["cond"]},
-                                            root_variables={dec_var(v) for v in case["roots"]}, graph=graph)
+            r = au.get_ancestral_components(conditioned_variables=mkset({dec_var(v) for v in case["cond"]}),
+                                            root_variables=mkset({dec_var(v) for v in case["roots"]}), graph=graph)
             out = ["ok", C.as_set([C.as_set([_enc_var(v) for v in s]) for s in r])]
         elif op == "is_factor_form":
-            r = api.is_counterfactual_factor_form(event={dec_var(v) for v in case["vs"]}, graph=graph)
+            r = api.is_counterfactual_factor_form(event=mkset({dec_var(v) for v in case["vs"]}), graph=graph)
             out = ["ok", "true" if r else "false"]
             if not r and _outside(case):
                 out = ["ok", "false-or-err"]   # set iteration order decides whether the non-node is reached
         elif op == "factors":
-            r = api.get_counterfactual_factors(event={dec_var(v) for v in case["vs"]}, graph=graph)
+            r = api.get_counterfactual_factors(event=mkset({dec_var(v) for v in case["vs"]}), graph=graph)
             out = ["ok", C.as_set([C.as_set([_enc_var(v) for v in s]) for s in r])]
             if sum(len(s) for s in r) != len({dec_var(v) for v in case["vs"]}):
                 wf = "get_counterfactual_factors: the factors do not partition the event"
         elif op == "factors_values":
-            r = api.get_counterfactual_factors_retaining_variable_values(event=set(_dec_event(case["e"])), graph=graph)
+            r = api.get_counterfactual_factors_retaining_variable_values(event=mkset(set(_dec_event(case["e"]))), graph=graph)
             out = ["ok", C.as_set([C.as_set(_enc_event(s)) for s in r])]
         elif op == "convert":
-            out = ["ok", _bag(_enc_event(api.convert_to_counterfactual_factor_form(event=_dec_event(case["e"]), graph=graph)))]
+            out = ["ok", _bag(_enc_event(api.convert_to_counterfactual_factor_form(event=mkevent(case["e"]), graph=graph)))]
         elif op == "factorize":
-            expr, ev = api.do_counterfactual_factor_factorization(variables=_dec_event(case["e"]), graph=graph)
+            expr, ev = api.do_counterfactual_factor_factorization(variables=mkevent(case["e"]), graph=graph)
             out = ["ok", _enc_factorisation(expr, ev)]
         elif op == "cond_in_ancestral_set":
             r = au._get_conditioned_variables_in_ancestral_set(
-                conditioned_variables={dec_var(v) for v in case["cond"]},
+                conditioned_variables=mkset({dec_var(v) for v in case["cond"]}),
                 ancestral_set_root_variable=dec_var(case["v"]), graph=graph)
             out = ["ok", C.as_set([str(G.name_to_int(v.name)) for v in r])]
             if not all(type(v) is Variable and v.star is None for v in r):
                 wf = "_get_conditioned_variables_in_ancestral_set returned something that is not a graph vertex"
         elif op == "ancestral_set_after":
             r = au._get_ancestral_set_after_intervening_on_conditioned_variables(
-                conditioned_variables={dec_var(v) for v in case["cond"]},
+                conditioned_variables=mkset({dec_var(v) for v in case["cond"]}),
                 ancestral_set_root_variable=dec_var(case["v"]), graph=graph)
             out = ["ok", C.as_set([_enc_var(v) for v in r])]
         elif op == "merge_common":
-            sets = {frozenset(dec_var(v) for v in s) for s in case["sets"]}
-            r = au._merge_frozen_sets_with_common_vertices(sets)
+            sets = mkset({frozenset(dec_var(v) for v in s) for s in case["sets"]})
+            r = au._merge_frozen_sets_with_common_vertices(input_sets=sets) if kwcall else au._merge_frozen_sets_with_common_vertices(sets)
             out = ["ok", C.as_set([C.as_set([_enc_var(v) for v in s]) for s in r])]
         elif op == "merge_bidirected":
-            sets = {frozenset(dec_var(v) for v in s) for s in case["sets"]}
-            r = au._merge_frozen_sets_linked_by_bidirectional_edges(input_sets=sets, graph=graph)
+            sets = mkset({frozenset(dec_var(v) for v in s) for s in case["sets"]})
+            r = au._merge_frozen_sets_linked_by_bidirectional_edges(input_sets=sets, graph=graph) if kwcall else \
+                au._merge_frozen_sets_linked_by_bidirectional_edges(sets, graph)
             out = ["ok", C.as_set([C.as_set([_enc_var(v) for v in s]) for s in r])]
             if not _disjoint_bases(case["sets"]) or any(not s for s in case["sets"]):
                 out = ["ok", "unspecified"]   # only reached with non-empty sets that are disjoint on graph vertices
@@ -621,7 +671,7 @@ def _call(case):
             out = ["ok", [("true" if c in cs else "false") for c in ("multi-world", "literal-bound", "outcome-parent-value")]
                    + ["true" if _readable_query(case["e"]) else "false"]]
         elif op == "simplify_factorize":
-            r = api.simplify(event=_dec_event(case["e"]), graph=graph)
+            r = api.simplify(event=mkevent(case["e"]), graph=graph)
             if r is None:
                 out = ["ok", "none"]
             else:
@@ -961,6 +1011,7 @@ def run_python(case):
             "exception": exc or "-", "max_subscripts": nsub, "malformed": bool(case.get("malformed")),
             "scm_models": case.get("models", 0)}
     tags["op_exception"] = f"{case['op']}:{exc}" if exc else "-"
+    tags.update(FM.tags(_forms(case)))
     if case["op"] in ("components_from_sets", "ancestral_components") and out[0] == "ok":
         n_in = len(case["sets"]) if "sets" in case else len(case["roots"])
         tags["components"] = f"{n_in}->{len(out[1])}"
